@@ -868,3 +868,16 @@ PROPS["C03"]["does_not_cover"] = [x.replace("reopen replay (C13 covers the seque
 PROPS["C13"]["technique"] = PROPS["C13"]["technique"] + "; Verus contract on the replay-queue construction of Log::open (fragments extracted on every run)"
 if "Verus" not in PROPS["C03"]["technique"]:
     PROPS["C03"]["technique"] = PROPS["C03"]["technique"] + "; Verus contract on the replay-queue construction of Log::open (fragments extracted on every run)"
+
+# ---------------------------------------------------------------- U56 (Verus: lookups over the current index and EVERY queued index table)
+UNIT_META["index_queue_search"] = {"functions": ["column::HashColumn::search_index", "column::HashColumn::search_all_indexes", "column::HashColumn::get (fragment: from the lookup in the current index to the end)"],
+                                   "assumes": ["IndexTable::get replaced by its contract (U2 lifted through the log view, as in unit lookup_chain)", "ValueTable::has_key_at replaced by its contract (stored key tail of a live entry equals the key's; checked boundedly by Kani, U6-R)",
+                                               "HashColumn::get_in_index is a function of the state here (proved against its own callees by unit lookup_chain)", "the lock guards of HashColumn::get (tables.read(), reindex.read()) become parameters of the wrapper; `for entry in &queue` is written `for entry in it: queue.iter()` (listed rewrites)",
+                                               "every value-table vector holds 256 tables (one per size tier), index sizes 16..=49"]}
+for _p in ("C01", "C09", "C14", "C07"):
+    PROPS[_p]["verus_units"] = list(PROPS[_p].get("verus_units", [])) + ["index_queue_search"]
+_U56 = " Lookups during index growth (Verus, unbounded over the number of older index tables queued for migration): HashColumn::search_index returns only a slot whose value entry carries the key and passes over no such slot; search_all_indexes and the read path of HashColumn::get report a key absent only after the current index AND every queued index table were searched, and what they return comes from one of those tables."
+for _p in ("C01", "C09"):
+    PROPS[_p]["claim"] = PROPS[_p]["claim"] + _U56
+PROPS["C14"]["claim"] = PROPS["C14"]["claim"] + " A write finds the existing entry of its key in whichever index table holds it (Verus, unbounded over the queued index tables: search_all_indexes), so an overwrite never leaves a second, orphaned entry behind."
+PROPS["C07"]["claim"] = PROPS["C07"]["claim"] + " The entry whose count an operation changes is found in whichever index table holds the key (Verus, unbounded over the queued index tables: search_all_indexes)."
